@@ -40,6 +40,14 @@ OPTION_SETS = [
     ["no_warnings", "truncate_getter_at_node_tag = false", "emit_rule_reference"],
 ]
 
+# only meaningful when the generator is built with `grammar-extras`
+EXTRAS_OPTION_SETS = [
+    ["emit_tagged_node_reference"],
+    ["emit_tagged_node_reference", "emit_rule_reference", "truncate_getter_at_node_tag = false"],
+    ["emit_tagged_node_reference", "truncate_getter_at_node_tag = true", "box_only_if_needed"],
+    ["emit_tagged_node_reference", "pest_optimizer = false", "no_warnings"],
+]
+
 VARIANTS = {
     "default": [],
     "box": ["opt_box"],
@@ -48,8 +56,14 @@ VARIANTS = {
     "ref": ["opt_ref"],
     "misc": ["opt_nowarn", "opt_nospan", "opt_tag"],
     "noopt_box_ref": ["opt_noopt", "opt_box", "opt_ref"],
+    # derive built with `grammar-extras` (node tags kept): the tag options then do something
+    "extras": ["extras"],
+    "extras_tag": ["extras", "opt_tag"],
+    "extras_tag_ref_box": ["extras", "opt_tag", "opt_ref", "opt_box"],
 }
-QUICK_VARIANTS = ["default", "box", "noopt", "allon"]
+# what a variant is compared with: the option-free build of the same cargo feature set
+BASELINE = {"extras_tag": "extras", "extras_tag_ref_box": "extras"}
+QUICK_VARIANTS = ["default", "box", "noopt", "allon", "extras", "extras_tag"]
 
 
 def grammar_files():
@@ -132,23 +146,25 @@ def text_of(texts, name):
     return texts[name]
 
 
-def make_step(rng, goods, bads, texts, root_index):
+def make_step(rng, goods, bads, texts, root_index, option_sets=None):
+    option_sets = option_sets or OPTION_SETS
     if rng.chance(1, 3):
         # a grammar program drawn from the seed (inline source: nothing to compile, so programs can be sampled)
         name = "gen:%d" % (rng.next() % 1_000_000)
-        return {"name": name, "source": "inline", "path": "", "text": text_of(texts, name), "options": list(rng.pick(OPTION_SETS)),
+        return {"name": name, "source": "inline", "path": "", "text": text_of(texts, name), "options": list(rng.pick(option_sets)),
                 "include_grammar": False, "thread": rng.pick([0, 0, 1, 2, 3, 9])}
     bad = rng.chance(1, 7)
     name = rng.pick(bads) if bad else rng.pick(goods)
     source = "file" if rng.chance(2, 3) else "inline"
-    opts = list(rng.pick(OPTION_SETS))
+    opts = list(rng.pick(option_sets))
     include = source == "file" and root_index == 0 and rng.chance(1, 4)
     thread = rng.pick([0, 0, 1, 2, 3, 9])
     return {"name": name, "source": source, "path": "grammars/%s.pest" % name, "text": texts[name] if source == "inline" else "",
             "options": opts, "include_grammar": include, "thread": thread}
 
 
-def gen_run(seed, goods, bads, texts):
+def gen_run(seed, goods, bads, texts, option_sets=None):
+    option_sets = option_sets or OPTION_SETS
     rng = C.SplitMix(seed)
     # swarm: each perturbation kind is enabled per run with its own probability
     env = dict(NEUTRAL_ENV)
@@ -189,14 +205,14 @@ def gen_run(seed, goods, bads, texts):
             st["thread"] = rng.pick([0, 1, 2, 3, 9])
             if rng.chance(1, 2):
                 # ... the same grammar under another option set / source kind
-                st["options"] = list(rng.pick(OPTION_SETS))
+                st["options"] = list(rng.pick(option_sets))
                 if rng.chance(1, 3) and not st["name"].startswith("gen:"):
                     st["source"] = "inline" if st["source"] == "file" else "file"
                     st["text"] = texts[st["name"]] if st["source"] == "inline" else ""
                     st["include_grammar"] = False
             steps.append(st)
         else:
-            steps.append(make_step(rng, goods, bads, texts, env["root"]))
+            steps.append(make_step(rng, goods, bads, texts, env["root"], option_sets))
     return {"env": env, "scenario": {"heap_pre": heap, "steps": steps}}
 
 
@@ -415,9 +431,14 @@ def run(tier, seed):
     if shim is None:
         raise C.HarnessError("envshim source missing")
     binary = C.require_build("gensim")
+    # the generator built with its `grammar-extras` feature: node tags are kept, which switches on the tagged-node maps and
+    # makes emit_tagged_node_reference / truncate_getter_at_node_tag do something
+    binary_extras = C.require_build("gensim", features=["extras"], variant="extras")
     roots, texts, goods, bads = prepare_roots()
-    refs = GenRefs(binary, shim, roots, texts)
     n_runs = {"quick": 500, "thorough": 60000}[tier]
+    gen_phases = [("plain", binary, GenRefs(binary, shim, roots, texts), n_runs, OPTION_SETS),
+                  ("extras", binary_extras, GenRefs(binary_extras, shim, roots, texts), n_runs // 3, OPTION_SETS + EXTRAS_OPTION_SETS)]
+    phase_env = {p[0]: p for p in gen_phases}
     base = C.mix(seed, C.tag("C20"))
     pool = concurrent.futures.ThreadPoolExecutor(max_workers=C.jobs())
     failing = {}
@@ -432,89 +453,92 @@ def run(tier, seed):
     evaluations = 0
     keys_seen = set()
     CH = 400
-    for start in range(0, n_runs, CH):
-        seeds = [C.mix(base, r) for r in range(start, min(n_runs, start + CH))]
-        runs = [gen_run(s, goods, bads, texts) for s in seeds]
-        results = list(pool.map(lambda r: exec_run(binary, shim, roots, r), runs))
-        keys = set()
-        for (steps, counters, rc, err), r, s in zip(results, runs, seeds):
-            if rc != 0:
-                raise C.HarnessError("gensim died outside an expansion (run seed %d, exit %d): %s" % (s, rc, err[-1500:]))
-            if len(steps) != len(r["scenario"]["steps"]):
-                raise C.HarnessError("gensim reported %d of %d steps (run seed %d)" % (len(steps), len(r["scenario"]["steps"]), s))
-            for st in steps:
-                keys.add(st[2])
-        refs.ensure(keys, pool)
-        keys_seen |= keys
-        for (steps, counters, rc, err), r, s in zip(results, runs, seeds):
-            evaluations += 1
-            for k, v in counters.items():
-                counters_total[k] = counters_total.get(k, 0) + v
-            e = r["env"]
-            env_kinds["hash_seed_varied"] += 1
-            env_kinds["clock_varied"] += e["clock_base"] != NEUTRAL_ENV["clock_base"] or e["clock_step"] != NEUTRAL_ENV["clock_step"]
-            env_kinds["junk_environment"] += e["junk_env"] > 0
-            env_kinds["well_known_variables_set"] += len(e["well_known"])
-            env_kinds["pid_varied"] += e["pid"] != NEUTRAL_ENV["pid"]
-            env_kinds["cpu_count_varied"] += e["ncpu"] != NEUTRAL_ENV["ncpu"]
-            env_kinds["manifest_root_relocated"] += e["root"] != 0
-            env_kinds["cwd_changed"] += e["cwd"] != "root0"
-            env_kinds["read_short_configured"] += e["read_short"] > 0
-            env_kinds["read_eintr_configured"] += e["read_eintr"] > 0
-            env_kinds["stderr_is_full_disk"] += e["stderr"] == "devfull"
-            env_kinds["stderr_is_devnull"] += e["stderr"] == "devnull"
-            env_kinds["heap_ballast"] += r["scenario"]["heap_pre"][0] > 0
-            env_class = (e["clock_base"] != NEUTRAL_ENV["clock_base"], e["junk_env"] > 0, tuple(sorted(e["well_known"])), e["root"], e["cwd"], e["read_short"], e["read_eintr"], e["stderr"],
-                         r["scenario"]["heap_pre"][0] > 0)
-            prefix = ""
-            panicked = False
-            seen_in_run = set()
-            for i, ((digest, length, key), st) in enumerate(zip(steps, r["scenario"]["steps"])):
-                steps_total += 1
-                env_kinds["non_main_thread_steps"] += st["thread"] != 0
-                env_kinds["fresh_thread_steps"] += st["thread"] == 9
-                env_kinds["panicking_expansions"] += digest.startswith("PANIC")
-                if st["name"].startswith("gen:"):
-                    env_kinds["generated_grammar_expansions"] += 1
-                    env_kinds["generated_grammar_expansions_accepted"] += not digest.startswith("PANIC")
-                env_kinds["steps_after_a_panicking_expansion"] += panicked
-                env_kinds["repeated_expansions_in_one_process"] += key in seen_in_run
-                seen_in_run.add(key)
-                panicked = panicked or digest.startswith("PANIC")
-                # non-trivial: not the first expansion of a neutral-environment process
-                distinct.add(hash((key, env_class, prefix, st["thread"])))
-                prefix = prefix + "|" + key
-                want = refs.map[key]
-                if digest != want:
-                    cls = "output-differs" if not digest.startswith("PANIC") and not want.startswith("PANIC") else "panic-differs"
-                    f = failing.setdefault((cls, key), [s, 0, r])
-                    f[1] += 1
-            if len(samples) < 2:
-                samples.append({"run_seed": s, "environment": e, "heap_pre": r["scenario"]["heap_pre"],
-                                "history": [{k: v for k, v in st.items() if k != "text"} for st in r["scenario"]["steps"]],
-                                "digests": [d[:16] for d, _, _ in steps]})
+    for (label, gbin, refs, n_phase, option_sets) in gen_phases:
+        pbase = base if label == "plain" else C.mix(base, C.tag(label))
+        for start in range(0, n_phase, CH):
+            seeds = [C.mix(pbase, r) for r in range(start, min(n_phase, start + CH))]
+            runs = [gen_run(s, goods, bads, texts, option_sets) for s in seeds]
+            results = list(pool.map(lambda r: exec_run(gbin, shim, roots, r), runs))
+            keys = set()
+            for (steps, counters, rc, err), r, s in zip(results, runs, seeds):
+                if rc != 0:
+                    raise C.HarnessError("gensim died outside an expansion (run seed %d, exit %d): %s" % (s, rc, err[-1500:]))
+                if len(steps) != len(r["scenario"]["steps"]):
+                    raise C.HarnessError("gensim reported %d of %d steps (run seed %d)" % (len(steps), len(r["scenario"]["steps"]), s))
+                for st in steps:
+                    keys.add(st[2])
+            refs.ensure(keys, pool)
+            keys_seen |= keys
+            for (steps, counters, rc, err), r, s in zip(results, runs, seeds):
+                evaluations += 1
+                for k, v in counters.items():
+                    counters_total[k] = counters_total.get(k, 0) + v
+                e = r["env"]
+                env_kinds["hash_seed_varied"] += 1
+                env_kinds["clock_varied"] += e["clock_base"] != NEUTRAL_ENV["clock_base"] or e["clock_step"] != NEUTRAL_ENV["clock_step"]
+                env_kinds["junk_environment"] += e["junk_env"] > 0
+                env_kinds["well_known_variables_set"] += len(e["well_known"])
+                env_kinds["pid_varied"] += e["pid"] != NEUTRAL_ENV["pid"]
+                env_kinds["cpu_count_varied"] += e["ncpu"] != NEUTRAL_ENV["ncpu"]
+                env_kinds["manifest_root_relocated"] += e["root"] != 0
+                env_kinds["cwd_changed"] += e["cwd"] != "root0"
+                env_kinds["read_short_configured"] += e["read_short"] > 0
+                env_kinds["read_eintr_configured"] += e["read_eintr"] > 0
+                env_kinds["stderr_is_full_disk"] += e["stderr"] == "devfull"
+                env_kinds["stderr_is_devnull"] += e["stderr"] == "devnull"
+                env_kinds["heap_ballast"] += r["scenario"]["heap_pre"][0] > 0
+                env_class = (e["clock_base"] != NEUTRAL_ENV["clock_base"], e["junk_env"] > 0, tuple(sorted(e["well_known"])), e["root"], e["cwd"], e["read_short"], e["read_eintr"], e["stderr"],
+                             r["scenario"]["heap_pre"][0] > 0)
+                prefix = ""
+                panicked = False
+                seen_in_run = set()
+                for i, ((digest, length, key), st) in enumerate(zip(steps, r["scenario"]["steps"])):
+                    steps_total += 1
+                    env_kinds["non_main_thread_steps"] += st["thread"] != 0
+                    env_kinds["fresh_thread_steps"] += st["thread"] == 9
+                    env_kinds["panicking_expansions"] += digest.startswith("PANIC")
+                    if st["name"].startswith("gen:"):
+                        env_kinds["generated_grammar_expansions"] += 1
+                        env_kinds["generated_grammar_expansions_accepted"] += not digest.startswith("PANIC")
+                    env_kinds["steps_after_a_panicking_expansion"] += panicked
+                    env_kinds["repeated_expansions_in_one_process"] += key in seen_in_run
+                    seen_in_run.add(key)
+                    panicked = panicked or digest.startswith("PANIC")
+                    # non-trivial: not the first expansion of a neutral-environment process
+                    distinct.add(hash((label, key, env_class, prefix, st["thread"])))
+                    prefix = prefix + "|" + key
+                    want = refs.map[key]
+                    if digest != want:
+                        cls = "output-differs" if not digest.startswith("PANIC") and not want.startswith("PANIC") else "panic-differs"
+                        f = failing.setdefault((label, cls, key), [s, 0, r])
+                        f[1] += 1
+                if len(samples) < 2:
+                    samples.append({"run_seed": s, "environment": e, "heap_pre": r["scenario"]["heap_pre"],
+                                    "history": [{k: v for k, v in st.items() if k != "text"} for st in r["scenario"]["steps"]],
+                                    "digests": [d[:16] for d, _, _ in steps]})
     # J0: the seams must really be in the loop
     if counters_total.get("getrandom", 0) == 0:
         raise C.HarnessError("envshim canary: getrandom was never intercepted; the hash-seed seam is not in the loop")
     known = C.known_for(PROP)
     new_violations, known_hits = [], []
     groups = {}
-    for (cls, key), (s, cnt, r) in sorted(failing.items()):
-        g = groups.setdefault(cls, {"count": 0, "first": (s, key, r), "keys": []})
+    for (label, cls, key), (s, cnt, r) in sorted(failing.items()):
+        g = groups.setdefault((label, cls), {"count": 0, "first": (s, key, r), "keys": []})
         g["count"] += cnt
         g["keys"].append(key)
-    for cls, g in groups.items():
+    for (label, cls), g in groups.items():
         s, key, r = g["first"]
+        _, binary, refs, _, _ = phase_env[label]
         small = minimise(binary, shim, roots, refs, r, cls, key, pool)
         hit = [f for f in failures_of(binary, shim, roots, refs, small, pool) if f[0] == cls and f[1] == key]
         if not hit:
             raise C.HarnessError("violation %s for %s (run seed %d) did not reproduce in a fresh process" % (cls, key, s))
         diff = describe_difference(binary, shim, roots, refs, small, key, hit[0][2])
-        path = C.replay_path(PROP, C.safe_name("%s-seed%d-%s" % (tier, seed, cls)) + ".json")
+        path = C.replay_path(PROP, C.safe_name("%s-seed%d-%s-%s" % (tier, seed, label, cls)) + ".json")
         for st in small["scenario"]["steps"]:
             st.pop("text", None)  # re-read from the corpus on replay
         doc = {"property": PROP, "class": cls, "subject": key, "count": g["count"], "affected_keys": g["keys"][:20], "seed": seed, "run_seed": s, "tier": tier,
-               "kind": "generator-run", "run": small, "original_steps": len(r["scenario"]["steps"]), "first_difference": diff,
+               "kind": "generator-run", "generator_build": label, "run": small, "original_steps": len(r["scenario"]["steps"]), "first_difference": diff,
                "reference_digest_alone_in_neutral_process": refs.map[key], "replay_cmd": "./check replay " + path}
         json.dump(doc, open(path, "w"), indent=1, ensure_ascii=False)
         k = next((k for k in known if k["match"].get("class") == cls and k["match"].get("subject") in (None, key)), None)
@@ -545,9 +569,11 @@ def run(tier, seed):
         res = variant_runs(bins, seeds)
         dflt = res["default"]
         for name in bins:
-            if name == "default":
+            if name == "default" or name == "extras":
+                continue  # `extras` differs from `default` by a cargo feature, not by an option: it is a baseline only
+            if BASELINE.get(name, "default") not in res:
                 continue
-            for ri, (a, b) in enumerate(zip(dflt, res[name])):
+            for ri, (a, b) in enumerate(zip(res[BASELINE.get(name, "default")], res[name])):
                 if a is None or b is None:
                     var_runs_lost += 1
                     continue
@@ -581,10 +607,11 @@ def run(tier, seed):
         subject = name + "/" + site
         path = C.replay_path(PROP, C.safe_name("%s-seed%d-variant-%s-%s-disagrees" % (tier, seed, name, site)) + ".json")
         doc = {"property": PROP, "class": "variant-disagrees", "subject": subject, "kind": "variant-op", "variant": name, "features": VARIANTS[name], "operation": op,
+               "baseline": BASELINE.get(name, "default"),
                "count": g["count"], "affected_operations": g["keys"][:20], "seed": seed, "run_seed": s, "tier": tier, "replay_cmd": "./check replay " + path}
         json.dump(doc, open(path, "w"), indent=1, ensure_ascii=False)
         # confirm in fresh processes: the single operation alone in both binaries
-        if _variant_op_differs(bins["default"], bins[name], op) is not True:
+        if _variant_op_differs(bins[BASELINE.get(name, "default")], bins[name], op) is not True:
             raise C.HarnessError("variant disagreement %s / %s did not reproduce with the single operation in fresh processes" % (name, key))
         k = next((k for k in known if k["match"].get("class") == "variant-disagrees" and k["match"].get("site") == site == "repetition-with-implicit-skip"), None)
         (known_hits if k else new_violations).append((k, doc, path))
@@ -612,7 +639,8 @@ def run(tier, seed):
         "generator_runs": evaluations,
         "expansions_observed": steps_total,
         "distinct_expansion_keys": len(keys_seen),
-        "reference_processes": refs.processes,
+        "reference_processes": sum(p[2].processes for p in gen_phases),
+        "generator_builds": {p[0]: p[3] for p in gen_phases},
         "environment_kinds_applied": {k: int(v) for k, v in env_kinds.items()},
         "shim_calls_fired": counters_total,
         "clock_reads_by_generator": counters_total.get("clock", 0),
@@ -655,7 +683,10 @@ def replay(path):
     kind = doc.get("kind")
     if kind == "generator-run":
         shim = build_envshim()
-        binary = C.require_build("gensim")
+        if doc.get("generator_build", "plain") == "extras":
+            binary = C.require_build("gensim", features=["extras"], variant="extras")
+        else:
+            binary = C.require_build("gensim")
         roots, texts, goods, bads = prepare_roots()
         refs = GenRefs(binary, shim, roots, texts)
         run = doc["run"]
@@ -672,10 +703,11 @@ def replay(path):
         if hit:
             C.say("\n".join([l for l in failed[doc["variant"]].splitlines() if l.startswith("error")][:10]))
     elif kind == "variant-op":
-        bins, failed = build_variants(["default", doc["variant"]])
-        if "default" in failed or doc["variant"] in failed:
+        basev = doc.get("baseline", "default")
+        bins, failed = build_variants([basev, doc["variant"]])
+        if basev in failed or doc["variant"] in failed:
             raise C.HarnessError("a variant needed for this replay does not build")
-        hit = _variant_op_differs(bins["default"], bins[doc["variant"]], doc["operation"]) is True
+        hit = _variant_op_differs(bins[basev], bins[doc["variant"]], doc["operation"]) is True
     else:
         raise C.HarnessError("unknown replay kind")
     if hit:
